@@ -47,8 +47,9 @@ def compute_flux(input_quantities, output_unit, wavelength=None, spatial_scale=N
 
     if input_quantities.unit.is_equivalent(u.Jy):  # Fnu
 
-        # Simply sum up the values and convert to output unit
-        total_flux = quantity_sum(input_quantities).to(u.Jy)
+        # Convert to Jy, then sum (logarithmic units such as AB magnitudes are
+        # equivalent to Jy, but their values must not be added)
+        total_flux = quantity_sum(input_quantities.to(u.Jy))
 
     elif input_quantities.unit.is_equivalent(u.erg / u.cm ** 2 / u.s / u.m):  # Flambda
 
